@@ -59,6 +59,36 @@ def gen_pack_history(rng, align):
     return hist
 
 
+def gen_shift_pack_history(rng):
+    """pack removes k transactions in FRONT of the saved index position (old revisions of A) and the k
+    transactions committed after the pack time have the same sizes: the position of the index saved in
+    between is again a transaction boundary of the packed file, but every record sits at a LOWER
+    offset than the pre-pack index says.  Returns (history, pack spec)."""
+    A, B, C = 1, 2, 3
+    k = rng.choice([1, 1, 2])
+    pads = [rng.randrange(110, 230) for _ in range(k)]
+    tid = L.TID_BASE + rng.randrange(1, 1000)
+    hist = []
+
+    def txn(oid, n, pad, save):
+        nonlocal tid
+        tid += 0x1000000 + rng.randrange(0x1000)
+        hist.append(dict(kind='commit', tid=tid, status=' ', user=['f', 0, 0], desc=['f', 0, 0], ext=['f', 0, 0],
+                         ops=[['store', oid, ['h', pickled(n, pad).hex()]]], save_index=save))
+    for i, pad in enumerate(pads):
+        txn(A, i, pad, rng.random() < 0.3)
+    txn(A, 10, rng.randrange(0, 20), rng.random() < 0.5)
+    mids = rng.sample([B, C], rng.choice([1, 2]))
+    for j, o in enumerate(mids):
+        txn(o, 20 + j, rng.randrange(0, 20), j == len(mids) - 1 or rng.random() < 0.5)
+    after = len(hist) - 1
+    for i, pad in enumerate(pads):
+        txn(mids[-1] if i == k - 1 else rng.choice([A] + mids), 30 + i, pad, False)
+    if rng.random() < 0.5:
+        txn(rng.choice([A, B, C, 4]), 40, 30, False)
+    return hist, dict(gc=False, after=after)
+
+
 def recipe_history():
     """DESIGN section 5 item 9: T1a={C}, T1b={A}; save index; T2a={D}, T2b={A}, T2c={C}; pack"""
     A, C, D = 1, 2, 3
@@ -358,7 +388,9 @@ def part_a(ck, hist, tag, pack=None, model=True):
             if 'error' in want:
                 continue
             if 'error' in got:
-                sig = STALE_SIG if stale else 'C09:open-with-side-files-raised'
+                sig = 'C09:open-with-side-files-raised'
+                if packed and si is not None:
+                    sig = 'C09:sanity-check-raises-on-stale-index'
                 if 'OSError' in got['error'] and 'Errno 22' in got['error']:
                     sig = 'C09:sanity-walk-before-file-start'
                 what = 'open of %s with %s raised %s, without it the open succeeds' % (name, vname, got['error'])
@@ -714,6 +746,9 @@ def main(argv=None):
             runs.append(('gen%d' % i, L.gen_history(ck.rng, ck.rng.choice(['small', 'small', 'small', 'meta'])), None))
         for i in range(npack):
             runs.append(('pack%d' % i, gen_pack_history(ck.rng, align=(i % 3 != 0)), False))
+        for i in range(4 if not ck.thorough else 60):
+            h, pk = gen_shift_pack_history(ck.rng)
+            runs.append(('shiftpack%d' % i, h, pk))
         nro = 50 if not ck.thorough else 2000
     all_lines, expectations = [], []
     specs = [dict(name=name, history=hist, pack=pack, seed=ck.rng.randrange(1 << 30), thorough=ck.thorough,
